@@ -155,7 +155,10 @@ def check_trace(res, tr):
                             continue
                         if st.worker[w].get("solo") and len(ws) > 0:
                             continue
-                        res.add("idle_pair", "C06.idle_pair", "working step %d: facility %s and worker %s are both FREE although facility task %s "
+                        key = "C06.idle_pair"
+                        if st.parents.get(cid):
+                            key = "C06.idle_pair.nested_component_with_ancestor"
+                        res.add("idle_pair", key, "working step %d: facility %s and worker %s are both FREE although facility task %s "
                                 "(placed at %s, holding %s/%s) could use the pair" % (k, f, w, tid, placed, list(ws), list(fs)), k)
         R = s.ph.get("recorded")
         if R is None:
